@@ -512,6 +512,10 @@ type CacheCtor struct {
 	SetInt   bool   `json:"set_int"` // pass WithCleanupInterval
 	SetCap   bool   `json:"set_cap"`
 	CB       bool   `json:"cb"` // install callback at construction
+	// Twice: the default-expiration option is given twice (DefTTL2 first, then
+	// DefTTL): the last one wins
+	Twice   bool  `json:"twice,omitempty"`
+	DefTTL2 int64 `json:"def_ttl2,omitempty"`
 }
 
 var CacheKinds = []string{"cache", "cacheof_string_any", "cacheof_int_int64", "cacheof_struct_int64"}
@@ -533,6 +537,9 @@ func newCacheOf[K comparable, V any](kc keyCodec[K], vc valCodec[V], ct CacheCto
 		c = cache.NewOf[K, V]()
 	default:
 		var opts []cache.OptionOf[K, V]
+		if ct.SetDef && ct.Twice {
+			opts = append(opts, cache.WithDefaultExpirationOf[K, V](time.Duration(ct.DefTTL2)))
+		}
 		if ct.SetDef {
 			opts = append(opts, cache.WithDefaultExpirationOf[K, V](time.Duration(ct.DefTTL)))
 		}
@@ -570,6 +577,9 @@ func NewCacheKind(ct CacheCtor, cb func(int, int64)) CacheAPI {
 			c = cache.New()
 		default:
 			var opts []cache.Option
+			if ct.SetDef && ct.Twice {
+				opts = append(opts, cache.WithDefaultExpiration(time.Duration(ct.DefTTL2)))
+			}
 			if ct.SetDef {
 				opts = append(opts, cache.WithDefaultExpiration(time.Duration(ct.DefTTL)))
 			}
